@@ -13,6 +13,8 @@ def run(chk):
     forwarders.run(chk)
     from lib import assignempty
     assignempty.run(chk)
+    from lib import arenareset
+    arenareset.run(chk)
     return chk.finish(
         level="other",
         explanation=("Decides one structural clause of C18 on /repo's current source: in String::_op_vformat() and Arena::sformat() the value "
